@@ -360,7 +360,9 @@ func (h *Harness) conv(v interface{}, owner *model.Node, nth int) interface{} {
 			}
 			if allNodes {
 				hid := h.registryID()
-				if h.hasAny {
+				if h.hasAny && len(t)%2 == 0 {
+					// (with a root resolver installed every other such list still is a ListResolver: the root resolver
+					// could count and index it, as a slice, but the list's own accessors take precedence)
 					refs := make(AnyRefList, len(t))
 					for i, e := range t {
 						if e != nil {
